@@ -71,6 +71,7 @@ type harness struct {
 	model *hx.Model
 	quiet bool // no counters / obligations (shrinking, classifier probes)
 	reported map[string]int
+	curDef   int // serial of the build whose definition the model driver currently holds
 }
 
 func (h *harness) count(k string) {
